@@ -161,7 +161,27 @@ class Sites:
         if rebinding:
             raise AnalysisError("basins_retrieve: the definition variable is "
                                 "rebound inside the loop")
+        # locals that stand for an entry of the definition
+        # (b_type = bdict["type"]), assigned exactly once
+        self.alias = {}
+        stores = {}
+        for n in walk(func):
+            if isinstance(n, ast.Name) and isinstance(n.ctx, ast.Store):
+                stores[n.id] = stores.get(n.id, 0) + 1
+        for n in walk(self.loop):
+            if isinstance(n, ast.Assign) and len(n.targets) == 1 \
+                    and isinstance(n.targets[0], ast.Name) \
+                    and stores.get(n.targets[0].id) == 1 \
+                    and isinstance(n.value, ast.Subscript) and is_name(
+                        n.value.value, self.var) and const_str(
+                        n.value.slice) is not None:
+                self.alias[n.targets[0].id] = const_str(n.value.slice)
         self.cfg = CFG(func)
+
+    def is_entry(self, e, key):
+        """`<def>[key]` or a local assigned once from it"""
+        return is_key(e, self.var, key) or (
+            isinstance(e, ast.Name) and self.alias.get(e.id) == key)
 
     def cls_text(self, call):
         f = call.func
@@ -180,9 +200,9 @@ class Sites:
         if not (isinstance(e, ast.Compare) and len(e.ops) == 1):
             return None
         a, op, b = e.left, e.ops[0], e.comparators[0]
-        if is_key(b, self.var, "type") and isinstance(op, (ast.Eq, ast.NotEq)):
+        if self.is_entry(b, "type") and isinstance(op, (ast.Eq, ast.NotEq)):
             a, b = b, a
-        if not is_key(a, self.var, "type"):
+        if not self.is_entry(a, "type"):
             return None
         if isinstance(op, ast.Eq) and t or isinstance(op, ast.NotEq) and not t:
             s = const_str(b)
@@ -222,8 +242,8 @@ class Sites:
             if not (isinstance(e, ast.Compare) and len(e.ops) == 1):
                 return False
             a, op, b = e.left, e.ops[0], e.comparators[0]
-            pair = (is_cls_type(a) and is_key(b, self.var, "type")) or (
-                is_cls_type(b) and is_key(a, self.var, "type"))
+            pair = (is_cls_type(a) and self.is_entry(b, "type")) or (
+                is_cls_type(b) and self.is_entry(a, "type"))
             if not pair:
                 return False
             return (isinstance(op, ast.Eq) and t) or (
@@ -1561,7 +1581,19 @@ MUTANTS = [
       "                    if True:\n"), "R14.4"),
 ]
 
+def _twin_entry_locals(src):
+    """b_format / b_type locals instead of repeated dictionary look-ups"""
+    src = src.replace('bdict["type"]', "b_type")
+    return src.replace(
+        '            b_cls = bc[bdict["format"]]\n',
+        '            b_format = bdict["format"]\n'
+        '            b_cls = bc[b_format]\n'
+        '            b_type = bdict["type"]\n', 1)
+
+
 TWINS = [
+    ("locals for the format and type of the definition", CORE,
+     _twin_entry_locals),
     ("local rename of the definition variable", CORE,
      lambda s: s.replace("bdict", "bdef")),
     ("cycle test as nested ifs", CORE,
